@@ -258,6 +258,8 @@ class H2Server(TimerMixin, Peer):
         self.events = _copy.deepcopy(list(self.hcfg.get("events", ())))
         self.goaway_sent = False
         self.gated = False
+        self.req_cl = {}           # sid -> announced request body length (or None)
+        self.req_got = {}
         self.held = b""
         self.goaway_last = 0
         self.max_processed = 0
@@ -525,6 +527,8 @@ class H2Server(TimerMixin, Peer):
                 hd = dict(ev.headers)
                 tok = hd.get(b"x-token")
                 self.tokens[ev.stream_id] = tok
+                cl = hd.get(b"content-length")
+                self.req_cl[ev.stream_id] = int(cl) if cl is not None and cl.isdigit() else None
                 # plan events counted in request heads fire before the request is
                 # processed, so that a GOAWAY can still refuse it
                 self.cur_sid = ev.stream_id
@@ -583,6 +587,25 @@ class H2Server(TimerMixin, Peer):
     # -- window updates for request bodies ----------------------------------------------
     def _credit(self, now, sid, n):
         pol = self.hcfg.get("wu", "eager")
+        if pol == "thrifty":
+            # exactly as much credit as the announced request bodies still need, no more:
+            # a body that fits the window gets none, and the windows stand at zero when
+            # its last byte has arrived (END_STREAM needs no credit)
+            self.req_got[sid] = self.req_got.get(sid, 0) + n
+            if self.req_cl.get(sid) is None:
+                self._grant(now, sid, n, n)
+                return
+            try:
+                rem = max(0, self.req_cl[sid] - self.req_got[sid])
+                s_need = rem - self.c.remote_flow_control_window(sid)
+                tot = sum(max(0, cl - self.req_got.get(k, 0)) for k, cl in self.req_cl.items()
+                          if cl is not None and k in self.ledger.open_srv)
+                c_need = tot - self.c._inbound_flow_control_window_manager.current_window_size
+            except (h2.exceptions.ProtocolError, AttributeError, KeyError):
+                self._grant(now, sid, n, n)
+                return
+            self._grant(now, sid, max(0, s_need), max(0, c_need))
+            return
         if pol == "eager":
             self._grant(now, sid, n, n)
         elif pol == "late":
